@@ -97,7 +97,7 @@ def hex16 (v : UInt64) : String :=
   let ds := (Nat.toDigits 16 v.toNat)
   String.ofList (List.replicate (16 - ds.length) '0' ++ ds)
 
-def showSection (dim : Nat) (e : EnvSt) (evals polls : Nat) (qhash : UInt64) (s : Section) : String :=
+def showSection (_dim : Nat) (e : EnvSt) (evals polls : Nat) (qhash : UInt64) (s : Section) : String :=
   match s.report with
   | none => "cleared"
   | some r =>
